@@ -1,12 +1,12 @@
 //! C20 Build configuration changes precision only, never semantics.
 //!
 //! The same binary is built once per build configuration by ./check. In each configuration it
-//! (a) runs the numeric suites of C01-C06, C08, C10 and C18 at their quick workloads (in builds
+//! (a) runs the numeric suites of C01-C06, C08, C10, C18 and the metadata suite of C15 at their quick workloads (in builds
 //! without `fastmath` the tighter oracles apply: curves within 5e-5, powf/expf/cbrtf within 2 ulp of
 //! libm), and (b) dumps the raw output bits of a seeded input set. The driver then compares the
 //! dumps of pairs of configurations (`--diff`).
 
-use super::{c01, c02, c03, c04, c06, c08, c10, c18};
+use super::{c01, c02, c03, c04, c06, c08, c10, c15, c18};
 use crate::api::{cfg, codes444, frame444};
 use crate::engine::*;
 use crate::gen::expand_codes;
@@ -16,7 +16,7 @@ use yuvxyb::{ColorPrimaries as CP, LinearRgb, Rgb, TransferCharacteristic as TC,
 
 type Suite = (&'static str, fn(&Ctx, &mut Stats) -> Vec<Violation>);
 
-const SUITES: [Suite; 9] = [
+const SUITES: [Suite; 10] = [
     ("C01", c01::run),
     ("C02", c02::run),
     ("C03", c03::run),
@@ -25,6 +25,8 @@ const SUITES: [Suite; 9] = [
     ("C06", c06::run),
     ("C08", c08::run),
     ("C10", c10::run),
+    // metadata guessing (with the logger of the checking process enabled: its warnings are formatted and counted)
+    ("C15", c15::run),
     ("C18", c18::run),
 ];
 
@@ -83,6 +85,7 @@ pub fn replay(v: &Value) -> Result<(), String> {
         Some("C06") => c06::replay(v),
         Some("C08") => c08::replay(v),
         Some("C10") => c10::replay(v),
+        Some("C15") => c15::replay(v),
         Some("C18") => c18::replay(v),
         Some("diff") => Ok(()), // differential findings are re-checked by re-running the check
         _ => Err("unknown suite".into()),
